@@ -525,21 +525,25 @@ def warm_walk(ctx: Ctx, V, path, name, size, geo, leaves0):
             targets.append((lf.name, x0, y0))
             if h > 1:
                 targets.append((lf.name, x0, y0 + h - 1))
-    for lname, X, Y in targets + targets[::-1]:
+    steps = [("move", t) for t in targets + targets[::-1]] + [("press", t) for t in targets + targets[::-1]]
+    for how, (lname, X, Y) in steps:
         ctx.count("evaluations")
         try:
-            ok = root.move_cursor_to_coords(size, X, Y)
+            if how == "move":
+                ok = root.move_cursor_to_coords(size, X, Y)
+            else:
+                ok = root.mouse_event(size, "mouse press", 1, X, Y, True)
             cc = root.get_cursor_coords(size)
             canv = root.render(size, True)
             rc = canv.cursor
             held.append(canv)
         except Exception as e:
-            V("event-raises", f"{name} {size}: live tree, move to ({X},{Y}) then get_cursor_coords/render raised {type(e).__name__}: {e}", site=exc_site(e), cell=(X, Y))
+            V("event-raises", f"{name} {size}: live tree, {how} at ({X},{Y}) then get_cursor_coords/render raised {type(e).__name__}: {e}", site=exc_site(e), cell=(X, Y))
             break
-        ctx.obs(name, size, "warm", X, Y, ok, cc, rc)
+        ctx.obs(name, size, "warm", how, X, Y, ok, cc, rc)
         if cc != rc:
-            V("cursor-agrees", f"{name} {size}: live tree (earlier canvases alive, cache warm), after move_cursor_to_coords({X},{Y}) -> {ok!r}: "
-              f"get_cursor_coords {cc} != rendered cursor {rc}", "warm", cell=(X, Y))
+            V("cursor-agrees", f"{name} {size}: live tree (earlier canvases alive, cache warm), after {'move_cursor_to_coords' if how == 'move' else 'a button-1 press at'}({X},{Y}) -> {ok!r}: "
+              f"get_cursor_coords {cc} != rendered cursor {rc}", "warm" if how == "move" else "warm-press", cell=(X, Y))
             break
     urwid.CanvasCache.clear()
 
@@ -586,7 +590,7 @@ def run(tier, R):
         f"constructor for {3 if tier == 'quick' else 6} representative leaves; per tree and sizing mode the first {3 if tier == 'quick' else 6} sizes of the "
         "lattice (cols 1..14 x rows 1..11, ascending) that satisfy the verified fit precondition; every cell of the rendered area is pressed and, when it shows a "
         "selectable leaf, made the target of move_cursor_to_coords (each on a freshly built tree); plus, per tree and size, one live tree whose cursor is walked over "
-        "every selectable leaf and back with all earlier canvases kept alive and the canvas cache warm, comparing the reported and the rendered cursor after every move. evaluations = presses + moves + cursor comparisons; non-trivial = distinct (tree, fitting size)",
+        "every selectable leaf and back (by move_cursor_to_coords, then by button-1 presses) with all earlier canvases kept alive and the canvas cache warm, comparing the reported and the rendered cursor after every move. evaluations = presses + moves + cursor comparisons; non-trivial = distinct (tree, fitting size)",
         "exhaustive": True,
         "trees": len(paths),
         "fitting_sizes": int(R.ctx.counts.get("sizes", 0)),
